@@ -1,7 +1,1453 @@
-//! C31 — not implemented yet (see DESIGN.md section 4).
-use kit::Run;
-use serde_json::Value;
+//! C31 — the C API never crashes or double-frees on handle misuse.
+//! S-seq, level `model_checking`: explicit-state exploration of call histories over the exported `extern "C"` functions of
+//! `c2pa-c-ffi` (linked as rlib, called exactly as C would). State = history (live objects cannot be copied, so every state is
+//! rebuilt by replay); model = map address -> handle kind for live handles (keyed by address, so re-issued addresses are tracked).
+//! Every pointer argument is drawn from {each live handle (right or wrong type), the most recently freed address, NULL,
+//! a foreign pointer (harness-owned zeroed heap block)}; stream arguments from {fresh valid stream, live handle of another
+//! type, released stream, NULL, foreign}. Pool <= 3 live handles.
+//!
+//! Exploration: (1) every sequence up to depth D1 without any reduction; (2) breadth-first to depth D2 with one representative
+//! history per abstract model state (multiset of (kind, flavour, status) + kind of the last freed address), every enabled call
+//! tried in every state. Every sequence ends with an epilogue that frees every handle the model believes live (must succeed
+//! exactly once, a second free must fail).
+//!
+//! All library calls happen in forked children of WORKER SUBPROCESSES (this binary re-executed with VERIF_C31_WORKER set), so a
+//! crash kills one child and is attributed to the exact sequence.
+//!
+//! Oracle (property text): argument invalid per model => error indicator (NULL / negative / false) and a fresh, non-empty
+//! c2pa_error(); all arguments valid => no handle-related error (NullParameter / UntrackedPointer / WrongPointerType);
+//! free of a live handle returns 0 exactly once, afterwards -1 unless the address was re-issued; the child never dies.
+//!
+//! Mutants caught (tools/mutant_run.sh F <diff> C31 quick):
+//!  * /verif/mutants/C31-build-no-untrack.diff   (c2pa_context_builder_build consumes the builder without untracking it)
+//!  * /verif/mutants/C31-free-ignores-untracked.diff (cimpl_free reports success for untracked pointers)
 
-pub fn run(_run: &Run, _replay: Option<&Value>) {
-    kit::ev::machinery("C31: check not implemented");
+#![allow(deprecated)]
+#![allow(clippy::missing_safety_doc)]
+
+use std::{
+    collections::{BTreeMap, BTreeSet},
+    ffi::{c_char, c_int, c_void, CStr, CString},
+    io::{BufRead, BufReader, Cursor, Read, Seek, SeekFrom, Write},
+    os::unix::io::FromRawFd,
+    process::{Command, Stdio},
+    sync::Mutex,
+};
+
+use c2pa_c as ffi;
+use kit::{par, sdk, Run};
+use serde_json::{json, Value};
+
+// ------------------------------------------------------------------------------------------------
+// handle kinds, function table
+// ------------------------------------------------------------------------------------------------
+
+#[derive(Clone, Copy, PartialEq, Eq, Debug, PartialOrd, Ord, Hash)]
+enum Kd {
+    Settings,
+    CtxBuilder,
+    Context,
+    Reader,
+    Builder,
+    Signer,
+    Resolver,
+    Str,
+    Bytes,
+}
+impl Kd {
+    fn name(self) -> &'static str {
+        match self {
+            Kd::Settings => "settings",
+            Kd::CtxBuilder => "context-builder",
+            Kd::Context => "context",
+            Kd::Reader => "reader",
+            Kd::Builder => "builder",
+            Kd::Signer => "signer",
+            Kd::Resolver => "http-resolver",
+            Kd::Str => "string",
+            Kd::Bytes => "bytes",
+        }
+    }
+}
+
+/// content of a fresh valid stream
+#[derive(Clone, Copy, PartialEq, Eq, Debug)]
+enum Content {
+    Png,
+    SignedPng,
+    Empty,
+}
+
+#[derive(Clone, Copy, PartialEq, Eq, Debug)]
+enum Consume {
+    No,
+    /// consumed when the call succeeds; unspecified (resolved by the next observation) when it fails
+    OnSuccess,
+    /// consumed whenever this argument itself is valid (documented: "the pointer is INVALID after this call")
+    Always,
+}
+
+#[derive(Clone, Copy, PartialEq, Eq, Debug)]
+enum P {
+    /// handle of the given kind
+    H(Kd, Consume),
+    /// any library pointer (free functions)
+    Any,
+    /// stream
+    S(Content),
+}
+
+#[derive(Clone, Copy, PartialEq, Eq, Debug)]
+enum Ret {
+    /// pointer to a new handle of this kind; NULL = error
+    Ptr(Kd),
+    /// pointer or NULL, NULL being also a legitimate answer for valid arguments
+    PtrOrNull(Kd),
+    /// >= 0 ok, < 0 error
+    Int,
+    /// false = error indicator (also a legitimate answer)
+    Bool,
+    Void,
+}
+
+macro_rules! functions {
+    ($( $v:ident = $name:literal : [$($p:expr),*] -> $ret:expr, out=$out:literal, loads=$loads:literal; )*) => {
+        #[derive(Clone, Copy, PartialEq, Eq, Debug, PartialOrd, Ord, Hash)]
+        enum F { $($v),* }
+        const ALL_F: &[F] = &[$(F::$v),*];
+        impl F {
+            fn name(self) -> &'static str { match self { $(F::$v => $name),* } }
+            fn params(self) -> &'static [P] { match self { $(F::$v => { const X: &[P] = &[$($p),*]; X }),* } }
+            fn ret(self) -> Ret { match self { $(F::$v => $ret),* } }
+            /// writes a tracked byte buffer through an out-pointer on success
+            fn out_bytes(self) -> bool { match self { $(F::$v => $out),* } }
+            /// the returned reader has a manifest store loaded
+            fn loads(self) -> bool { match self { $(F::$v => $loads),* } }
+            fn parse(s: &str) -> Option<F> { ALL_F.iter().copied().find(|f| f.name() == s) }
+        }
+    };
+}
+
+use Consume::*;
+use Kd::*;
+functions! {
+    // constructors without pointer arguments
+    Version = "c2pa_version": [] -> Ret::Ptr(Str), out=false, loads=false;
+    ErrorStr = "c2pa_error": [] -> Ret::Ptr(Str), out=false, loads=false;
+    SettingsNew = "c2pa_settings_new": [] -> Ret::Ptr(Settings), out=false, loads=false;
+    CtxBuilderNew = "c2pa_context_builder_new": [] -> Ret::Ptr(CtxBuilder), out=false, loads=false;
+    ContextNew = "c2pa_context_new": [] -> Ret::Ptr(Context), out=false, loads=false;
+    ReaderNew = "c2pa_reader_new": [] -> Ret::Ptr(Reader), out=false, loads=false;
+    BuilderFromJson = "c2pa_builder_from_json": [] -> Ret::Ptr(Builder), out=false, loads=false;
+    SignerFromInfo = "c2pa_signer_from_info": [] -> Ret::Ptr(Signer), out=false, loads=false;
+    ResolverCreate = "c2pa_http_resolver_create": [] -> Ret::Ptr(Resolver), out=false, loads=false;
+    Ed25519Sign = "c2pa_ed25519_sign": [] -> Ret::Ptr(Bytes), out=false, loads=false;
+    // settings / context
+    SettingsSetValue = "c2pa_settings_set_value": [P::H(Settings, No)] -> Ret::Int, out=false, loads=false;
+    SettingsUpdate = "c2pa_settings_update_from_string": [P::H(Settings, No)] -> Ret::Int, out=false, loads=false;
+    CtxSetSettings = "c2pa_context_builder_set_settings": [P::H(CtxBuilder, No), P::H(Settings, No)] -> Ret::Int, out=false, loads=false;
+    CtxSetSigner = "c2pa_context_builder_set_signer": [P::H(CtxBuilder, No), P::H(Signer, OnSuccess)] -> Ret::Int, out=false, loads=false;
+    CtxSetResolver = "c2pa_context_builder_set_http_resolver": [P::H(CtxBuilder, No), P::H(Resolver, OnSuccess)] -> Ret::Int, out=false, loads=false;
+    CtxSetProgress = "c2pa_context_builder_set_progress_callback": [P::H(CtxBuilder, No)] -> Ret::Int, out=false, loads=false;
+    CtxBuild = "c2pa_context_builder_build": [P::H(CtxBuilder, Always)] -> Ret::Ptr(Context), out=false, loads=false;
+    ContextCancel = "c2pa_context_cancel": [P::H(Context, No)] -> Ret::Int, out=false, loads=false;
+    // reader
+    ReaderFromContext = "c2pa_reader_from_context": [P::H(Context, No)] -> Ret::Ptr(Reader), out=false, loads=false;
+    ReaderFromStream = "c2pa_reader_from_stream": [P::S(Content::SignedPng)] -> Ret::Ptr(Reader), out=false, loads=true;
+    ReaderWithStream = "c2pa_reader_with_stream": [P::H(Reader, Always), P::S(Content::SignedPng)] -> Ret::Ptr(Reader), out=false, loads=true;
+    ReaderWithManifestData = "c2pa_reader_with_manifest_data_and_stream": [P::H(Reader, Always), P::S(Content::Png)] -> Ret::Ptr(Reader), out=false, loads=true;
+    ReaderWithFragment = "c2pa_reader_with_fragment": [P::H(Reader, Always), P::S(Content::SignedPng), P::S(Content::Png)] -> Ret::Ptr(Reader), out=false, loads=true;
+    ReaderJson = "c2pa_reader_json": [P::H(Reader, No)] -> Ret::Ptr(Str), out=false, loads=false;
+    ReaderDetailedJson = "c2pa_reader_detailed_json": [P::H(Reader, No)] -> Ret::Ptr(Str), out=false, loads=false;
+    ReaderRemoteUrl = "c2pa_reader_remote_url": [P::H(Reader, No)] -> Ret::PtrOrNull(Str), out=false, loads=false;
+    ReaderIsEmbedded = "c2pa_reader_is_embedded": [P::H(Reader, No)] -> Ret::Bool, out=false, loads=false;
+    ReaderResourceToStream = "c2pa_reader_resource_to_stream": [P::H(Reader, No), P::S(Content::Empty)] -> Ret::Int, out=false, loads=false;
+    // builder
+    BuilderFromContext = "c2pa_builder_from_context": [P::H(Context, No)] -> Ret::Ptr(Builder), out=false, loads=false;
+    BuilderFromArchive = "c2pa_builder_from_archive": [P::S(Content::Png)] -> Ret::Ptr(Builder), out=false, loads=false;
+    BuilderWithDefinition = "c2pa_builder_with_definition": [P::H(Builder, Always)] -> Ret::Ptr(Builder), out=false, loads=false;
+    BuilderWithArchive = "c2pa_builder_with_archive": [P::H(Builder, Always), P::S(Content::Png)] -> Ret::Ptr(Builder), out=false, loads=false;
+    BuilderSetIntent = "c2pa_builder_set_intent": [P::H(Builder, No)] -> Ret::Int, out=false, loads=false;
+    BuilderSetNoEmbed = "c2pa_builder_set_no_embed": [P::H(Builder, No)] -> Ret::Void, out=false, loads=false;
+    BuilderSetRemoteUrl = "c2pa_builder_set_remote_url": [P::H(Builder, No)] -> Ret::Int, out=false, loads=false;
+    BuilderSetBasePath = "c2pa_builder_set_base_path": [P::H(Builder, No)] -> Ret::Int, out=false, loads=false;
+    BuilderAddResource = "c2pa_builder_add_resource": [P::H(Builder, No), P::S(Content::Png)] -> Ret::Int, out=false, loads=false;
+    BuilderAddIngredient = "c2pa_builder_add_ingredient_from_stream": [P::H(Builder, No), P::S(Content::Png)] -> Ret::Int, out=false, loads=false;
+    BuilderAddAction = "c2pa_builder_add_action": [P::H(Builder, No)] -> Ret::Int, out=false, loads=false;
+    BuilderToArchive = "c2pa_builder_to_archive": [P::H(Builder, No), P::S(Content::Empty)] -> Ret::Int, out=false, loads=false;
+    BuilderAddIngredientArchive = "c2pa_builder_add_ingredient_from_archive": [P::H(Builder, No), P::S(Content::Png)] -> Ret::Int, out=false, loads=false;
+    BuilderWriteIngredientArchive = "c2pa_builder_write_ingredient_archive": [P::H(Builder, No), P::S(Content::Empty)] -> Ret::Int, out=false, loads=false;
+    BuilderSign = "c2pa_builder_sign": [P::H(Builder, No), P::S(Content::Png), P::S(Content::Empty), P::H(Signer, No)] -> Ret::Int, out=true, loads=false;
+    BuilderSignContext = "c2pa_builder_sign_context": [P::H(Builder, No), P::S(Content::Png), P::S(Content::Empty)] -> Ret::Int, out=true, loads=false;
+    BuilderDataHashedPlaceholder = "c2pa_builder_data_hashed_placeholder": [P::H(Builder, No)] -> Ret::Int, out=true, loads=false;
+    BuilderSignDataHashed = "c2pa_builder_sign_data_hashed_embeddable": [P::H(Builder, No), P::H(Signer, No), P::S(Content::Png)] -> Ret::Int, out=true, loads=false;
+    BuilderNeedsPlaceholder = "c2pa_builder_needs_placeholder": [P::H(Builder, No)] -> Ret::Int, out=false, loads=false;
+    BuilderHashType = "c2pa_builder_hash_type": [P::H(Builder, No)] -> Ret::Int, out=false, loads=false;
+    BuilderPlaceholder = "c2pa_builder_placeholder": [P::H(Builder, No)] -> Ret::Int, out=true, loads=false;
+    BuilderSignEmbeddable = "c2pa_builder_sign_embeddable": [P::H(Builder, No)] -> Ret::Int, out=true, loads=false;
+    BuilderSetExclusions = "c2pa_builder_set_data_hash_exclusions": [P::H(Builder, No)] -> Ret::Int, out=false, loads=false;
+    BuilderSetMerkle = "c2pa_builder_set_fixed_size_merkle": [P::H(Builder, No)] -> Ret::Int, out=false, loads=false;
+    BuilderHashMdat = "c2pa_builder_hash_mdat_bytes": [P::H(Builder, No)] -> Ret::Int, out=false, loads=false;
+    BuilderUpdateHash = "c2pa_builder_update_hash_from_stream": [P::H(Builder, No), P::S(Content::Png)] -> Ret::Int, out=false, loads=false;
+    // signer
+    SignerReserveSize = "c2pa_signer_reserve_size": [P::H(Signer, No)] -> Ret::Int, out=false, loads=false;
+    IdentitySignerCreate = "c2pa_identity_signer_create": [P::H(Signer, OnSuccess), P::H(Signer, OnSuccess)] -> Ret::Ptr(Signer), out=false, loads=false;
+    // frees
+    Free = "c2pa_free": [P::Any] -> Ret::Int, out=false, loads=false;
+    ReleaseString = "c2pa_release_string": [P::Any] -> Ret::Void, out=false, loads=false;
+    StringFree = "c2pa_string_free": [P::Any] -> Ret::Void, out=false, loads=false;
+    ReaderFree = "c2pa_reader_free": [P::Any] -> Ret::Void, out=false, loads=false;
+    BuilderFree = "c2pa_builder_free": [P::Any] -> Ret::Void, out=false, loads=false;
+    SignerFree = "c2pa_signer_free": [P::Any] -> Ret::Void, out=false, loads=false;
+    ManifestBytesFree = "c2pa_manifest_bytes_free": [P::Any] -> Ret::Void, out=false, loads=false;
+    SignatureFree = "c2pa_signature_free": [P::Any] -> Ret::Void, out=false, loads=false;
+    ReleaseStream = "c2pa_release_stream": [P::Any] -> Ret::Void, out=false, loads=false;
+}
+
+impl F {
+    fn is_free(self) -> bool {
+        matches!(self.params(), [P::Any])
+    }
+    fn produces(self) -> bool {
+        matches!(self.ret(), Ret::Ptr(_) | Ret::PtrOrNull(_)) || self.out_bytes()
+    }
+    fn consumes_any(self) -> bool {
+        self.params().iter().any(|p| matches!(p, P::H(_, OnSuccess | Always))) || self.is_free()
+    }
+}
+
+// ------------------------------------------------------------------------------------------------
+// operations (symbolic, replayable)
+// ------------------------------------------------------------------------------------------------
+
+#[derive(Clone, Copy, PartialEq, Eq, Debug, PartialOrd, Ord, Hash)]
+enum A {
+    /// the i-th live handle of the pool (creation order)
+    Slot(u8),
+    /// the most recently freed / consumed address that has not been re-issued
+    Freed,
+    Null,
+    /// address of a zeroed heap block owned by the harness
+    Foreign,
+    /// a fresh valid stream, created for this call and released after it
+    Amb,
+    /// a stream that was created and released just before the call
+    AmbFreed,
+}
+impl A {
+    fn name(self) -> String {
+        match self {
+            A::Slot(i) => format!("slot{i}"),
+            A::Freed => "freed".into(),
+            A::Null => "null".into(),
+            A::Foreign => "foreign".into(),
+            A::Amb => "fresh-stream".into(),
+            A::AmbFreed => "released-stream".into(),
+        }
+    }
+    fn parse(s: &str) -> Option<A> {
+        Some(match s {
+            "freed" => A::Freed,
+            "null" => A::Null,
+            "foreign" => A::Foreign,
+            "fresh-stream" => A::Amb,
+            "released-stream" => A::AmbFreed,
+            _ => A::Slot(s.strip_prefix("slot")?.parse().ok()?),
+        })
+    }
+}
+
+#[derive(Clone, PartialEq, Eq, Debug, PartialOrd, Ord, Hash)]
+struct Op {
+    f: F,
+    args: Vec<A>,
+}
+impl Op {
+    fn to_json(&self) -> Value {
+        json!({"f": self.f.name(), "a": self.args.iter().map(|a| a.name()).collect::<Vec<_>>()})
+    }
+    fn from_json(v: &Value) -> Option<Op> {
+        Some(Op {
+            f: F::parse(v["f"].as_str()?)?,
+            args: v["a"].as_array()?.iter().map(|a| a.as_str().and_then(A::parse)).collect::<Option<Vec<_>>>()?,
+        })
+    }
+    fn text(&self) -> String {
+        format!("{}({})", self.f.name(), self.args.iter().map(|a| a.name()).collect::<Vec<_>>().join(", "))
+    }
+}
+fn hist_json(h: &[Op]) -> Value {
+    Value::Array(h.iter().map(|o| o.to_json()).collect())
+}
+fn hist_from_json(v: &Value) -> Vec<Op> {
+    v.as_array()
+        .map(|a| a.iter().map(|o| Op::from_json(o).unwrap_or_else(|| kit::ev::machinery(format!("C31: bad op {o}")))).collect())
+        .unwrap_or_default()
+}
+
+// ------------------------------------------------------------------------------------------------
+// model
+// ------------------------------------------------------------------------------------------------
+
+#[derive(Clone, Copy, PartialEq, Eq, Debug, PartialOrd, Ord)]
+enum St {
+    Live,
+    /// a failed call may or may not have consumed it; the next observation decides
+    Unknown,
+}
+
+#[derive(Clone, Debug)]
+struct Hd {
+    addr: usize,
+    kind: Kd,
+    loaded: bool,
+    st: St,
+}
+
+#[derive(Clone, Debug, Default)]
+struct Model {
+    live: Vec<Hd>,
+    freed: Option<(usize, Kd)>,
+}
+
+const POOL: usize = 3;
+
+#[derive(Clone, Copy, PartialEq, Eq, Debug)]
+enum Validity {
+    Valid,
+    Unknown,
+    /// null passed to a free function: documented no-op
+    NullNoop,
+    Invalid(&'static str),
+}
+
+impl Model {
+    fn key(&self) -> String {
+        let mut v: Vec<String> = self
+            .live
+            .iter()
+            .map(|h| format!("{}{}{}", h.kind.name(), if h.loaded { "+store" } else { "" }, if h.st == St::Unknown { "?" } else { "" }))
+            .collect();
+        v.sort();
+        format!("[{}] freed={}", v.join(","), self.freed.map(|f| f.1.name()).unwrap_or("-"))
+    }
+
+    fn validity(&self, p: P, a: A) -> Validity {
+        match (p, a) {
+            (P::Any, A::Null) => Validity::NullNoop,
+            (_, A::Null) => Validity::Invalid("null"),
+            (_, A::Freed) => Validity::Invalid("freed"),
+            (_, A::Foreign) => Validity::Invalid("foreign"),
+            (_, A::AmbFreed) => Validity::Invalid("released-stream"),
+            (P::S(_), A::Amb) => Validity::Valid,
+            (_, A::Amb) => Validity::Invalid("wrong-type"),
+            (p, A::Slot(i)) => match self.live.get(i as usize) {
+                None => Validity::Invalid("freed"),
+                Some(h) if h.st == St::Unknown => Validity::Unknown,
+                Some(h) => match p {
+                    P::Any => Validity::Valid,
+                    P::H(k, _) if k == h.kind => Validity::Valid,
+                    _ => Validity::Invalid("wrong-type"),
+                },
+            },
+        }
+    }
+
+    fn kill(&mut self, idx: usize) {
+        let h = self.live.remove(idx);
+        self.freed = Some((h.addr, h.kind));
+    }
+
+    /// Every call enabled in this state.
+    fn enabled(&self) -> Vec<Op> {
+        let mut out: BTreeSet<Op> = BTreeSet::new();
+        let n = self.live.len();
+        let first_of = |k: Kd, not: Option<u8>| -> Option<u8> {
+            self.live.iter().enumerate().find(|(i, h)| h.kind == k && h.st == St::Live && Some(*i as u8) != not).map(|(i, _)| i as u8)
+        };
+        for &f in ALL_F {
+            let params = f.params();
+            if f.produces() && n >= POOL && !f.consumes_any() {
+                continue;
+            }
+            if params.is_empty() {
+                out.insert(Op { f, args: vec![] });
+                continue;
+            }
+            // candidate classes per parameter
+            let cands = |p: P| -> Vec<A> {
+                let mut c: Vec<A> = (0..n as u8).map(A::Slot).collect();
+                if matches!(p, P::S(_)) {
+                    // wrong type for streams: only the first live handle (all pool members are non-streams)
+                    c.truncate(1);
+                    c.push(A::Amb);
+                    c.push(A::AmbFreed);
+                } else if self.freed.is_some() {
+                    c.push(A::Freed);
+                }
+                c.push(A::Null);
+                c.push(A::Foreign);
+                c
+            };
+            for j in 0..params.len() {
+                for cj in cands(params[j]) {
+                    // the other parameters get a valid argument when one exists (never the same handle twice), else NULL
+                    let mut args = vec![A::Null; params.len()];
+                    args[j] = cj;
+                    let not = if let A::Slot(i) = cj { Some(i) } else { None };
+                    for (k, p) in params.iter().enumerate() {
+                        if k == j {
+                            continue;
+                        }
+                        args[k] = match p {
+                            P::S(_) => A::Amb,
+                            P::H(kd, _) => first_of(*kd, not).map(A::Slot).unwrap_or(A::Null),
+                            P::Any => A::Null,
+                        };
+                    }
+                    out.insert(Op { f, args });
+                }
+            }
+        }
+        out.into_iter().collect()
+    }
+}
+
+// ------------------------------------------------------------------------------------------------
+// executing calls (child process only)
+// ------------------------------------------------------------------------------------------------
+
+struct Env {
+    png: Vec<u8>,
+    signed_png: Vec<u8>,
+    manifest_data: Vec<u8>,
+    thumb_uri: CString,
+    cert: CString,
+    key: CString,
+    foreign: usize,
+}
+
+/// harness side of a stream: a cursor; the C2paStream only holds a raw pointer to it
+struct AmbStream {
+    ptr: *mut ffi::C2paStream,
+    ctx: *mut Cursor<Vec<u8>>,
+}
+
+unsafe extern "C" fn s_read(ctx: *mut ffi::StreamContext, data: *mut u8, len: isize) -> isize {
+    let c = &mut *(ctx as *mut Cursor<Vec<u8>>);
+    let buf = std::slice::from_raw_parts_mut(data, len.max(0) as usize);
+    c.read(buf).map(|n| n as isize).unwrap_or(-1)
+}
+unsafe extern "C" fn s_seek(ctx: *mut ffi::StreamContext, off: isize, mode: ffi::C2paSeekMode) -> isize {
+    let c = &mut *(ctx as *mut Cursor<Vec<u8>>);
+    let from = match mode {
+        ffi::C2paSeekMode::Start => SeekFrom::Start(off.max(0) as u64),
+        ffi::C2paSeekMode::Current => SeekFrom::Current(off as i64),
+        ffi::C2paSeekMode::End => SeekFrom::End(off as i64),
+    };
+    c.seek(from).map(|n| n as isize).unwrap_or(-1)
+}
+unsafe extern "C" fn s_write(ctx: *mut ffi::StreamContext, data: *const u8, len: isize) -> isize {
+    let c = &mut *(ctx as *mut Cursor<Vec<u8>>);
+    let buf = std::slice::from_raw_parts(data, len.max(0) as usize);
+    c.write(buf).map(|n| n as isize).unwrap_or(-1)
+}
+unsafe extern "C" fn s_flush(_ctx: *mut ffi::StreamContext) -> isize {
+    0
+}
+unsafe extern "C" fn progress_cb(_c: *const c_void, _p: ffi::C2paProgressPhase, _s: u32, _t: u32) -> c_int {
+    1
+}
+unsafe extern "C" fn resolver_cb(_c: *mut c_void, _rq: *const ffi::C2paHttpRequest, _rs: *mut ffi::C2paHttpResponse) -> c_int {
+    -1
+}
+
+impl Env {
+    fn new() -> Env {
+        let png = kit::assets::png();
+        let signer = sdk::fixture_signer("ed25519");
+        // the seed carries a claim thumbnail so that c2pa_reader_resource_to_stream has something to deliver
+        let mut b = sdk::builder(
+            sdk::ctx(),
+            r#"{"title":"seed","claim_generator_info":[{"name":"kit","version":"1"}],"thumbnail":{"format":"image/jpeg","identifier":"thumb.jpg"}}"#,
+        );
+        b.add_resource("thumb.jpg", Cursor::new(b"verif-c31-thumbnail-bytes".to_vec()))
+            .unwrap_or_else(|e| kit::ev::machinery(format!("C31: seed add_resource: {e:?}")));
+        let (signed_png, manifest_data) =
+            sdk::sign(&mut b, signer.as_ref(), "image/png", &png).unwrap_or_else(|e| kit::ev::machinery(format!("C31: cannot sign the seed png: {e:?}")));
+        let rd = sdk::read(sdk::ctx(), "image/png", &signed_png).unwrap_or_else(|e| kit::ev::machinery(format!("C31: seed unreadable: {e:?}")));
+        let thumb_uri = rd
+            .active_manifest()
+            .and_then(|m| m.thumbnail_ref().map(|r| r.identifier.clone()))
+            .unwrap_or_else(|| kit::ev::machinery("C31: seed has no thumbnail reference"));
+        let mut probe = Cursor::new(Vec::new());
+        if rd.resource_to_stream(&thumb_uri, &mut probe).is_err() {
+            kit::ev::machinery(format!("C31: seed thumbnail {thumb_uri} cannot be streamed"));
+        }
+        let (cert, key) = sdk::fixture_keys("ed25519");
+        let foreign = Box::leak(vec![0u64; 512].into_boxed_slice()).as_ptr() as usize;
+        Env {
+            png,
+            signed_png,
+            manifest_data,
+            thumb_uri: CString::new(thumb_uri).unwrap_or_default(),
+            cert: CString::new(cert).unwrap_or_default(),
+            key: CString::new(key).unwrap_or_default(),
+            foreign,
+        }
+    }
+    unsafe fn stream(&self, c: Content) -> AmbStream {
+        let data = match c {
+            Content::Png => self.png.clone(),
+            Content::SignedPng => self.signed_png.clone(),
+            Content::Empty => vec![],
+        };
+        let ctx = Box::into_raw(Box::new(Cursor::new(data)));
+        let ptr = ffi::c2pa_create_stream(ctx as *mut ffi::StreamContext, s_read, s_seek, s_write, s_flush);
+        AmbStream { ptr, ctx }
+    }
+}
+
+const BUILDER_DEF: &str = r#"{"title":"verif-c31","claim_generator_info":[{"name":"verif","version":"1"}],"assertions":[{"label":"c2pa.actions","data":{"actions":[{"action":"c2pa.created","digitalSourceType":"http://cv.iptc.org/newscodes/digitalsourcetype/digitalCapture"}]}}]}"#;
+
+fn cs(s: &str) -> CString {
+    CString::new(s).unwrap_or_default()
+}
+
+struct Raw {
+    ptr: usize,
+    int: i64,
+    out: usize,
+}
+
+/// The actual FFI call. `a` are the resolved pointer arguments (as integers), in parameter order.
+unsafe fn call(env: &Env, f: F, a: &[usize]) -> Raw {
+    let mut r = Raw { ptr: 0, int: 0, out: 0 };
+    let p = |i: usize| a[i];
+    let png_fmt = cs("image/png");
+    let mut out: *const u8 = std::ptr::null();
+    macro_rules! ptr {
+        ($e:expr) => {
+            r.ptr = $e as usize
+        };
+    }
+    macro_rules! int {
+        ($e:expr) => {
+            r.int = $e as i64
+        };
+    }
+    match f {
+        F::Version => ptr!(ffi::c2pa_version()),
+        F::ErrorStr => ptr!(ffi::c2pa_error()),
+        F::SettingsNew => ptr!(ffi::c2pa_settings_new()),
+        F::CtxBuilderNew => ptr!(ffi::c2pa_context_builder_new()),
+        F::ContextNew => ptr!(ffi::c2pa_context_new()),
+        F::ReaderNew => ptr!(ffi::c2pa_reader_new()),
+        F::BuilderFromJson => ptr!(ffi::c2pa_builder_from_json(cs(BUILDER_DEF).as_ptr())),
+        F::SignerFromInfo => {
+            let alg = cs("ed25519");
+            let info = ffi::C2paSignerInfo { alg: alg.as_ptr(), sign_cert: env.cert.as_ptr(), private_key: env.key.as_ptr(), ta_url: std::ptr::null() };
+            ptr!(ffi::c2pa_signer_from_info(&info))
+        }
+        F::ResolverCreate => ptr!(ffi::c2pa_http_resolver_create(std::ptr::null(), resolver_cb)),
+        F::Ed25519Sign => {
+            let data = b"verif-c31-data";
+            ptr!(ffi::c2pa_ed25519_sign(data.as_ptr(), data.len(), env.key.as_ptr()))
+        }
+        F::SettingsSetValue => int!(ffi::c2pa_settings_set_value(p(0) as *mut _, cs("verify.verify_after_sign").as_ptr(), cs("true").as_ptr())),
+        F::SettingsUpdate => int!(ffi::c2pa_settings_update_from_string(p(0) as *mut _, cs(r#"{"verify":{"verify_after_sign":true}}"#).as_ptr(), cs("json").as_ptr())),
+        F::CtxSetSettings => int!(ffi::c2pa_context_builder_set_settings(p(0) as *mut _, p(1) as *mut _)),
+        F::CtxSetSigner => int!(ffi::c2pa_context_builder_set_signer(p(0) as *mut _, p(1) as *mut _)),
+        F::CtxSetResolver => int!(ffi::c2pa_context_builder_set_http_resolver(p(0) as *mut _, p(1) as *mut _)),
+        F::CtxSetProgress => int!(ffi::c2pa_context_builder_set_progress_callback(p(0) as *mut _, std::ptr::null(), progress_cb)),
+        F::CtxBuild => ptr!(ffi::c2pa_context_builder_build(p(0) as *mut _)),
+        F::ContextCancel => int!(ffi::c2pa_context_cancel(p(0) as *mut _)),
+        F::ReaderFromContext => ptr!(ffi::c2pa_reader_from_context(p(0) as *mut _)),
+        F::ReaderFromStream => ptr!(ffi::c2pa_reader_from_stream(png_fmt.as_ptr(), p(0) as *mut _)),
+        F::ReaderWithStream => ptr!(ffi::c2pa_reader_with_stream(p(0) as *mut _, png_fmt.as_ptr(), p(1) as *mut _)),
+        F::ReaderWithManifestData => ptr!(ffi::c2pa_reader_with_manifest_data_and_stream(p(0) as *mut _, png_fmt.as_ptr(), p(1) as *mut _, env.manifest_data.as_ptr(), env.manifest_data.len())),
+        F::ReaderWithFragment => ptr!(ffi::c2pa_reader_with_fragment(p(0) as *mut _, png_fmt.as_ptr(), p(1) as *mut _, p(2) as *mut _)),
+        F::ReaderJson => ptr!(ffi::c2pa_reader_json(p(0) as *mut _)),
+        F::ReaderDetailedJson => ptr!(ffi::c2pa_reader_detailed_json(p(0) as *mut _)),
+        F::ReaderRemoteUrl => ptr!(ffi::c2pa_reader_remote_url(p(0) as *mut _)),
+        F::ReaderIsEmbedded => int!(ffi::c2pa_reader_is_embedded(p(0) as *mut _)),
+        F::ReaderResourceToStream => int!(ffi::c2pa_reader_resource_to_stream(p(0) as *mut _, env.thumb_uri.as_ptr(), p(1) as *mut _)),
+        F::BuilderFromContext => ptr!(ffi::c2pa_builder_from_context(p(0) as *mut _)),
+        F::BuilderFromArchive => ptr!(ffi::c2pa_builder_from_archive(p(0) as *mut _)),
+        F::BuilderWithDefinition => ptr!(ffi::c2pa_builder_with_definition(p(0) as *mut _, cs(BUILDER_DEF).as_ptr())),
+        F::BuilderWithArchive => ptr!(ffi::c2pa_builder_with_archive(p(0) as *mut _, p(1) as *mut _)),
+        F::BuilderSetIntent => int!(ffi::c2pa_builder_set_intent(p(0) as *mut _, ffi::C2paBuilderIntent::Edit, ffi::C2paDigitalSourceType::Empty)),
+        F::BuilderSetNoEmbed => ffi::c2pa_builder_set_no_embed(p(0) as *mut _),
+        F::BuilderSetRemoteUrl => int!(ffi::c2pa_builder_set_remote_url(p(0) as *mut _, cs("http://127.0.0.1:9/m.c2pa").as_ptr())),
+        F::BuilderSetBasePath => int!(ffi::c2pa_builder_set_base_path(p(0) as *mut _, cs("/tmp/verif-c31-no-such-dir").as_ptr())),
+        F::BuilderAddResource => int!(ffi::c2pa_builder_add_resource(p(0) as *mut _, cs("verif-resource").as_ptr(), p(1) as *mut _)),
+        F::BuilderAddIngredient => int!(ffi::c2pa_builder_add_ingredient_from_stream(p(0) as *mut _, cs(r#"{"title":"i"}"#).as_ptr(), png_fmt.as_ptr(), p(1) as *mut _)),
+        F::BuilderAddAction => int!(ffi::c2pa_builder_add_action(p(0) as *mut _, cs(r#"{"action":"c2pa.edited"}"#).as_ptr())),
+        F::BuilderToArchive => int!(ffi::c2pa_builder_to_archive(p(0) as *mut _, p(1) as *mut _)),
+        F::BuilderAddIngredientArchive => int!(ffi::c2pa_builder_add_ingredient_from_archive(p(0) as *mut _, p(1) as *mut _)),
+        F::BuilderWriteIngredientArchive => int!(ffi::c2pa_builder_write_ingredient_archive(p(0) as *mut _, cs("verif-ingredient").as_ptr(), p(1) as *mut _)),
+        F::BuilderSign => int!(ffi::c2pa_builder_sign(p(0) as *mut _, png_fmt.as_ptr(), p(1) as *mut _, p(2) as *mut _, p(3) as *mut _, &mut out)),
+        F::BuilderSignContext => int!(ffi::c2pa_builder_sign_context(p(0) as *mut _, png_fmt.as_ptr(), p(1) as *mut _, p(2) as *mut _, &mut out)),
+        F::BuilderDataHashedPlaceholder => int!(ffi::c2pa_builder_data_hashed_placeholder(p(0) as *mut _, 2048, png_fmt.as_ptr(), &mut out)),
+        F::BuilderSignDataHashed => int!(ffi::c2pa_builder_sign_data_hashed_embeddable(
+            p(0) as *mut _,
+            p(1) as *mut _,
+            cs(r#"{"exclusions":[{"start":33,"length":100}],"name":"jumbf manifest","alg":"sha256","hash":"gWZNEOMHQNiULfA/tO5HD2awOwYDA3tnfUPApIr9csk=","pad":[]}"#).as_ptr(),
+            png_fmt.as_ptr(),
+            p(2) as *mut _,
+            &mut out
+        )),
+        F::BuilderNeedsPlaceholder => int!(ffi::c2pa_builder_needs_placeholder(p(0) as *mut _, png_fmt.as_ptr())),
+        F::BuilderHashType => {
+            let mut ht = ffi::C2paHashType::DataHash;
+            int!(ffi::c2pa_builder_hash_type(p(0) as *mut _, png_fmt.as_ptr(), &mut ht))
+        }
+        F::BuilderPlaceholder => int!(ffi::c2pa_builder_placeholder(p(0) as *mut _, png_fmt.as_ptr(), &mut out)),
+        F::BuilderSignEmbeddable => int!(ffi::c2pa_builder_sign_embeddable(p(0) as *mut _, png_fmt.as_ptr(), &mut out)),
+        F::BuilderSetExclusions => {
+            let ex: [u64; 2] = [33, 100];
+            int!(ffi::c2pa_builder_set_data_hash_exclusions(p(0) as *mut _, ex.as_ptr(), 1))
+        }
+        F::BuilderSetMerkle => int!(ffi::c2pa_builder_set_fixed_size_merkle(p(0) as *mut _, 1)),
+        F::BuilderHashMdat => {
+            let d = [0u8; 32];
+            int!(ffi::c2pa_builder_hash_mdat_bytes(p(0) as *mut _, 0, d.as_ptr(), d.len(), false))
+        }
+        F::BuilderUpdateHash => int!(ffi::c2pa_builder_update_hash_from_stream(p(0) as *mut _, png_fmt.as_ptr(), p(1) as *mut _)),
+        F::SignerReserveSize => int!(ffi::c2pa_signer_reserve_size(p(0) as *mut _)),
+        F::IdentitySignerCreate => ptr!(ffi::c2pa_identity_signer_create(p(0) as *mut _, p(1) as *mut _, std::ptr::null(), std::ptr::null())),
+        F::Free => int!(ffi::c2pa_free(p(0) as *const c_void)),
+        F::ReleaseString => ffi::c2pa_release_string(p(0) as *mut c_char),
+        F::StringFree => ffi::c2pa_string_free(p(0) as *mut c_char),
+        F::ReaderFree => ffi::c2pa_reader_free(p(0) as *mut _),
+        F::BuilderFree => ffi::c2pa_builder_free(p(0) as *mut _),
+        F::SignerFree => ffi::c2pa_signer_free(p(0) as *const _),
+        F::ManifestBytesFree => ffi::c2pa_manifest_bytes_free(p(0) as *const u8),
+        F::SignatureFree => ffi::c2pa_signature_free(p(0) as *const u8),
+        F::ReleaseStream => ffi::c2pa_release_stream(p(0) as *mut _),
+    }
+    r.out = out as usize;
+    r
+}
+
+const SENTINEL: &str = "Other: verif-c31-sentinel";
+
+
+/// Set a known last error, so that "this call produced an error message" is observable through the C API alone.
+unsafe fn arm_error() -> String {
+    ffi::c2pa_error_set_last(cs(SENTINEL).as_ptr());
+    read_error()
+}
+unsafe fn read_error() -> String {
+    let p = ffi::c2pa_error();
+    if p.is_null() {
+        return String::new();
+    }
+    let s = CStr::from_ptr(p).to_string_lossy().into_owned();
+    ffi::c2pa_free(p as *const c_void);
+    s
+}
+
+#[derive(Default)]
+struct Verdicts {
+    v: Vec<(String, String)>,
+    class: String,
+}
+
+fn handle_error_class(msg: &str) -> Option<&'static str> {
+    for c in ["NullParameter", "UntrackedPointer", "WrongPointerType"] {
+        if msg.starts_with(c) {
+            return Some(c);
+        }
+    }
+    None
+}
+
+/// Arguments of `op` described by class (for keys): "builder:valid,stream:null", "stream:wrong-type(builder)", ...
+fn arg_classes(m: &Model, op: &Op) -> String {
+    let params = op.f.params();
+    op.args
+        .iter()
+        .enumerate()
+        .map(|(k, a)| {
+            let pname = match params[k] {
+                P::H(kd, _) => kd.name(),
+                P::Any => "any",
+                P::S(_) => "stream",
+            };
+            let c = match (m.validity(params[k], *a), a) {
+                (Validity::Valid, _) => "valid".to_string(),
+                (Validity::Unknown, _) => "unknown-status".to_string(),
+                (Validity::NullNoop, _) => "null".to_string(),
+                (Validity::Invalid("wrong-type"), A::Slot(i)) => format!("wrong-type({})", m.live.get(*i as usize).map(|h| h.kind.name()).unwrap_or("?")),
+                (Validity::Invalid(c), _) => c.to_string(),
+            };
+            format!("{pname}:{c}")
+        })
+        .collect::<Vec<_>>()
+        .join(",")
+}
+
+/// Execute one op against the library, judge it against the model, update the model.
+unsafe fn exec(env: &Env, m: &mut Model, op: &Op, judge: bool) -> Verdicts {
+    let f = op.f;
+    let params = f.params();
+    let mut verdicts = Verdicts::default();
+    // resolve arguments
+    let mut ambient: Vec<AmbStream> = vec![];
+    let mut dead_ctx: Vec<*mut Cursor<Vec<u8>>> = vec![];
+    let mut raw_args = vec![];
+    let mut validity = vec![];
+    for (p, a) in params.iter().zip(op.args.iter()) {
+        validity.push(m.validity(*p, *a));
+        let content = if let P::S(c) = p { *c } else { Content::Empty };
+        raw_args.push(match a {
+            A::Slot(i) => m.live.get(*i as usize).map(|h| h.addr).unwrap_or(0),
+            A::Freed => m.freed.map(|f| f.0).unwrap_or(0),
+            A::Null => 0,
+            A::Foreign => env.foreign,
+            A::Amb => {
+                let s = env.stream(content);
+                let p = s.ptr as usize;
+                ambient.push(s);
+                p
+            }
+            A::AmbFreed => {
+                let s = env.stream(content);
+                ffi::c2pa_release_stream(s.ptr);
+                dead_ctx.push(s.ctx);
+                s.ptr as usize
+            }
+        });
+    }
+    let unknown = validity.iter().any(|v| *v == Validity::Unknown);
+    let invalid: Option<(usize, &'static str)> = validity.iter().enumerate().find_map(|(i, v)| if let Validity::Invalid(c) = v { Some((i, *c)) } else { None });
+
+    let armed = arm_error();
+    let raw = call(env, f, &raw_args);
+    let msg = read_error();
+    let fresh = !msg.is_empty() && msg != armed;
+
+    // release ambient streams (they are valid library handles: releasing them must not be a problem)
+    for s in ambient {
+        ffi::c2pa_release_stream(s.ptr);
+        drop(Box::from_raw(s.ctx));
+    }
+    for c in dead_ctx {
+        drop(Box::from_raw(c));
+    }
+
+    let is_err = match f.ret() {
+        Ret::Ptr(_) | Ret::PtrOrNull(_) => raw.ptr == 0,
+        Ret::Int => raw.int < 0,
+        Ret::Bool => raw.int == 0,
+        Ret::Void => fresh,
+    };
+    let wrong_kind = |i: usize| -> String {
+        match op.args[i] {
+            A::Slot(s) => m.live.get(s as usize).map(|h| format!("({})", h.kind.name())).unwrap_or_default(),
+            _ => String::new(),
+        }
+    };
+    let argdesc = |i: usize, c: &str| {
+        format!("arg{}={}:{}{}", i, match params[i] { P::H(k, _) => k.name(), P::Any => "any", P::S(_) => "stream" }, c, if c == "wrong-type" { wrong_kind(i) } else { String::new() })
+    };
+    verdicts.class = format!(
+        "{} {} -> {}",
+        f.name(),
+        if unknown { "unknown-status-arg".to_string() } else if let Some((i, c)) = invalid { argdesc(i, c) } else { "valid".to_string() },
+        if is_err { format!("error[{}]", msg.split(':').next().unwrap_or("")) } else { "ok".to_string() }
+    );
+
+    if judge && !unknown {
+        if let Some((i, c)) = invalid {
+            if !matches!(f.ret(), Ret::Void) && !is_err {
+                verdicts.v.push((format!("no-error-indicator fn={} {}", f.name(), argdesc(i, c)), format!("{} returned a success value although {}", op.text(), argdesc(i, c))));
+            }
+            if !fresh {
+                verdicts.v.push((
+                    format!("no-error-message fn={} {}", f.name(), argdesc(i, c)),
+                    format!("{} with {} left no retrievable error message (c2pa_error() = {:?})", op.text(), argdesc(i, c), msg),
+                ));
+            }
+        } else {
+            if is_err && fresh {
+                if let Some(hc) = handle_error_class(&msg) {
+                    verdicts.v.push((format!("spurious-handle-error fn={} err={hc}", f.name()), format!("{} with valid arguments failed with {msg:?}", op.text())));
+                }
+            }
+            if f.is_free() && f == F::Free && validity[0] == Validity::Valid && raw.int != 0 {
+                verdicts.v.push((format!("free-live-failed fn={}", f.name()), format!("{} of a live handle returned {} ({msg:?})", op.text(), raw.int)));
+            }
+            if f.is_free() && validity[0] == Validity::NullNoop && f == F::Free && raw.int != 0 {
+                verdicts.v.push(("free-null-failed".into(), format!("c2pa_free(NULL) returned {}", raw.int)));
+            }
+        }
+    }
+
+    // ---- model update ----
+    let untracked = fresh && msg.starts_with("UntrackedPointer");
+    let mut to_kill: Vec<usize> = vec![];
+    let mut to_unknown: Vec<usize> = vec![];
+    let mut to_live: Vec<usize> = vec![];
+    for (j, (p, a)) in params.iter().zip(op.args.iter()).enumerate() {
+        let slot = if let A::Slot(i) = a { Some(*i as usize).filter(|i| *i < m.live.len()) } else { None };
+        let v = validity[j];
+        if let (Some(s), Validity::Unknown) = (slot, v) {
+            // first observation after an unspecified outcome
+            if untracked {
+                to_kill.push(s);
+                continue;
+            }
+            to_live.push(s);
+        }
+        let usable = matches!(v, Validity::Valid | Validity::Unknown);
+        let Some(s) = slot else { continue };
+        if !usable {
+            continue;
+        }
+        match p {
+            P::Any => {
+                let freed_ok = match f.ret() {
+                    Ret::Int => raw.int == 0,
+                    _ => !fresh,
+                };
+                if freed_ok {
+                    to_kill.push(s);
+                } else if v == Validity::Valid {
+                    to_unknown.push(s);
+                }
+            }
+            P::H(_, Always) => to_kill.push(s),
+            P::H(_, OnSuccess) => {
+                if !is_err && invalid.is_none() {
+                    to_kill.push(s);
+                } else {
+                    to_unknown.push(s);
+                }
+            }
+            _ => {}
+        }
+    }
+    for s in to_live {
+        m.live[s].st = St::Live;
+    }
+    for s in to_unknown {
+        if !to_kill.contains(&s) {
+            m.live[s].st = St::Unknown;
+        }
+    }
+    to_kill.sort();
+    to_kill.dedup();
+    for s in to_kill.into_iter().rev() {
+        m.kill(s);
+    }
+    // new handles
+    let mut born: Vec<(usize, Kd, bool)> = vec![];
+    if let Ret::Ptr(k) | Ret::PtrOrNull(k) = f.ret() {
+        if raw.ptr != 0 {
+            born.push((raw.ptr, k, f.loads()));
+        }
+    }
+    if f.out_bytes() && raw.out != 0 {
+        born.push((raw.out, Kd::Bytes, false));
+    }
+    for (addr, k, loaded) in born {
+        if let Some(idx) = m.live.iter().position(|h| h.addr == addr) {
+            if m.live[idx].st == St::Live && judge {
+                verdicts.v.push((
+                    format!("live-address-reissued fn={} kind={}", f.name(), m.live[idx].kind.name()),
+                    format!("{} returned address {addr:#x}, which the model holds as a live {} handle: the library released it without the caller asking", op.text(), m.live[idx].kind.name()),
+                ));
+            }
+            m.live.remove(idx);
+        }
+        if m.freed.map(|f| f.0) == Some(addr) {
+            m.freed = None;
+        }
+        m.live.push(Hd { addr, kind: k, loaded, st: St::Live });
+    }
+    verdicts
+}
+
+/// Free everything the model believes live (must succeed once), then free it again (must fail).
+unsafe fn epilogue(m: &mut Model, last: &Op, judge: bool) -> Vec<(String, String)> {
+    let mut v = vec![];
+    let handles: Vec<Hd> = m.live.drain(..).collect();
+    let mut freed_now = vec![];
+    for h in &handles {
+        let r = ffi::c2pa_free(h.addr as *const c_void);
+        if h.st == St::Live {
+            if r != 0 {
+                if judge {
+                    v.push((
+                        format!("free-live-failed-at-end kind={} after={}", h.kind.name(), last.f.name()),
+                        format!("after {}, c2pa_free of the {} handle the model holds live returned {r} ({:?})", last.text(), h.kind.name(), read_error()),
+                    ));
+                }
+            } else {
+                freed_now.push(h.clone());
+            }
+        } else if r == 0 {
+            freed_now.push(h.clone());
+        }
+    }
+    for h in &freed_now {
+        let r = ffi::c2pa_free(h.addr as *const c_void);
+        if r == 0 && judge {
+            v.push((format!("double-free-accepted kind={}", h.kind.name()), format!("a second c2pa_free of the same {} handle (no allocation in between) returned 0", h.kind.name())));
+        }
+    }
+    m.freed = None;
+    v
+}
+
+// ------------------------------------------------------------------------------------------------
+// worker side: expand units in forked children
+// ------------------------------------------------------------------------------------------------
+
+/// One unit of work: run prefix·op for every op enabled after `prefix` (or only `only`).
+#[derive(Clone)]
+struct Unit {
+    prefix: Vec<Op>,
+    only: Option<Op>,
+    want_succ: bool,
+    dedup: bool,
+    verbose: bool,
+}
+impl Unit {
+    fn to_json(&self) -> Value {
+        json!({"prefix": hist_json(&self.prefix), "only": self.only.as_ref().map(|o| o.to_json()), "want_succ": self.want_succ, "dedup": self.dedup, "verbose": self.verbose})
+    }
+    fn from_json(v: &Value) -> Unit {
+        Unit {
+            prefix: hist_from_json(&v["prefix"]),
+            only: if v["only"].is_null() { None } else { Op::from_json(&v["only"]) },
+            want_succ: v["want_succ"].as_bool().unwrap_or(false),
+            dedup: v["dedup"].as_bool().unwrap_or(false),
+            verbose: v["verbose"].as_bool().unwrap_or(false),
+        }
+    }
+}
+
+static PIPE_FD: std::sync::atomic::AtomicI32 = std::sync::atomic::AtomicI32::new(-1);
+
+fn child_write(s: &str) {
+    let fd = PIPE_FD.load(std::sync::atomic::Ordering::Relaxed);
+    if fd >= 0 {
+        let b = s.as_bytes();
+        let mut off = 0;
+        while off < b.len() {
+            let n = unsafe { libc::write(fd, b[off..].as_ptr() as *const c_void, b.len() - off) };
+            if n <= 0 {
+                break;
+            }
+            off += n as usize;
+        }
+    }
+}
+
+fn sig_name(status: i32) -> String {
+    if libc::WIFSIGNALED(status) {
+        let s = libc::WTERMSIG(status);
+        match s {
+            libc::SIGSEGV => "SIGSEGV".to_string(),
+            libc::SIGABRT => "SIGABRT".to_string(),
+            libc::SIGBUS => "SIGBUS".to_string(),
+            libc::SIGALRM => "timeout(SIGALRM)".to_string(),
+            libc::SIGILL => "SIGILL".to_string(),
+            libc::SIGFPE => "SIGFPE".to_string(),
+            _ => format!("signal{s}"),
+        }
+    } else {
+        format!("exit{}", libc::WEXITSTATUS(status))
+    }
+}
+
+/// Body of a forked child: never returns. The child replays the prefix ONCE and then forks a grandchild per call to try
+/// (fork is the state copy that the library itself cannot provide), so a crash kills only that grandchild.
+unsafe fn child_main(env: &Env, unit: &Unit, wfd: i32) -> ! {
+    PIPE_FD.store(wfd, std::sync::atomic::Ordering::Relaxed);
+    // a panic raised by harness code exits 101; a panic inside the library (extern "C" cannot unwind) is reported and aborts
+    std::panic::set_hook(Box::new(|info| {
+        let loc = info.location().map(|l| format!("{}:{}", l.file(), l.line())).unwrap_or_default();
+        let msg = if let Some(s) = info.payload().downcast_ref::<&str>() {
+            s.to_string()
+        } else if let Some(s) = info.payload().downcast_ref::<String>() {
+            s.clone()
+        } else {
+            "?".into()
+        };
+        let in_harness = loc.contains("props/src/") || loc.contains("kit/src/");
+        child_write(&format!("X {}\n", json!({"harness": in_harness, "loc": loc, "msg": msg})));
+        if in_harness {
+            libc::_exit(101);
+        }
+    }));
+    libc::alarm(1800);
+    let mut m = Model::default();
+    child_write("R\n");
+    for op in &unit.prefix {
+        exec(env, &mut m, op, false);
+    }
+    let ops: Vec<Op> = match &unit.only {
+        Some(o) => vec![o.clone()],
+        None => m.enabled(),
+    };
+    child_write(&format!("N {}\n", ops.len()));
+    let threads = std::fs::read_dir("/proc/self/task").map(|d| d.count()).unwrap_or(0);
+    if unit.verbose {
+        child_write(&format!("V model before: {} ; threads in process: {threads}\n", m.key()));
+    }
+    for (i, op) in ops.iter().enumerate() {
+        child_write(&format!("B {i} {}\n", op.to_json()));
+        child_write(&format!("P {i} {}\n", arg_classes(&m, op)));
+        let pid = libc::fork();
+        if pid < 0 {
+            child_write("X {\"harness\":true,\"loc\":\"fork\",\"msg\":\"fork failed\"}\n");
+            libc::_exit(101);
+        }
+        if pid == 0 {
+            libc::alarm(120);
+            let t0 = std::time::Instant::now();
+            let vd = exec(env, &mut m, op, true);
+            let ns = t0.elapsed().as_nanos() as u64;
+            let key = m.key();
+            let full = m.live.len() > POOL;
+            let mut v = vd.v;
+            v.extend(epilogue(&mut m, op, true));
+            let nontrivial = op.args.iter().any(|a| matches!(a, A::Slot(_) | A::Freed));
+            child_write(&format!("E {i} {}\n", json!({"class": vd.class, "key": key, "viol": v, "overfull": full, "nt": nontrivial, "ns": ns})));
+            libc::_exit(0);
+        }
+        let mut status = 0i32;
+        libc::waitpid(pid, &mut status, 0);
+        if !(libc::WIFEXITED(status) && libc::WEXITSTATUS(status) == 0) {
+            if libc::WIFEXITED(status) && libc::WEXITSTATUS(status) == 101 {
+                libc::_exit(101);
+            }
+            child_write(&format!("C {i} {}\n", sig_name(status)));
+        }
+    }
+    // the prefix state itself must also be releasable
+    let last = unit.prefix.last().cloned().unwrap_or(Op { f: F::Version, args: vec![] });
+    epilogue(&mut m, &last, false);
+    child_write("D\n");
+    libc::_exit(0);
+}
+
+#[derive(Default)]
+struct UnitResult {
+    times: BTreeMap<String, (u64, u64)>,
+    n_ops: usize,
+    executed: u64,
+    nontrivial: u64,
+    outcomes: BTreeMap<String, u64>,
+    /// (key, what, op)
+    violations: Vec<(String, String, Value)>,
+    /// (op, abstract state key after it)
+    succ: Vec<(Value, String)>,
+    log: Vec<String>,
+}
+
+/// Run one unit in a forked child (which forks once more per call). Runs in the (single-threaded) worker process.
+unsafe fn run_unit(env: &Env, unit: &Unit) -> UnitResult {
+    let mut res = UnitResult::default();
+    let mut seen_keys: BTreeSet<String> = BTreeSet::new();
+    let mut fds = [0i32; 2];
+    if libc::pipe(fds.as_mut_ptr()) != 0 {
+        kit::ev::machinery("C31 worker: pipe failed");
+    }
+    let pid = libc::fork();
+    if pid < 0 {
+        kit::ev::machinery("C31 worker: fork failed");
+    }
+    if pid == 0 {
+        libc::close(fds[0]);
+        child_main(env, unit, fds[1]);
+    }
+    libc::close(fds[1]);
+    let rd = BufReader::new(std::fs::File::from_raw_fd(fds[0]));
+    let mut current: Option<(usize, Value)> = None;
+    let mut done = false;
+    let mut replaying = false;
+    let mut lib_panic: Option<String> = None;
+    let mut crash_desc: Option<String> = None;
+    for line in rd.lines() {
+        let Ok(line) = line else { break };
+        let (tag, rest) = line.split_once(' ').unwrap_or((line.as_str(), ""));
+        match tag {
+            "R" => replaying = true,
+            "N" => {
+                replaying = false;
+                res.n_ops = rest.parse().unwrap_or(0);
+            }
+            "B" => {
+                let (i, op) = rest.split_once(' ').unwrap_or((rest, "null"));
+                current = Some((i.parse().unwrap_or(0), serde_json::from_str(op).unwrap_or(Value::Null)));
+                lib_panic = None;
+                crash_desc = None;
+            }
+            "P" => crash_desc = rest.split_once(' ').map(|x| x.1.to_string()),
+            "V" => res.log.push(rest.to_string()),
+            "X" => {
+                let v: Value = serde_json::from_str(rest).unwrap_or(Value::Null);
+                if v["harness"].as_bool() == Some(true) {
+                    kit::ev::machinery(format!("C31: harness code panicked in a child: {v}"));
+                }
+                lib_panic = Some(format!("panic at {}: {}", v["loc"].as_str().unwrap_or(""), v["msg"].as_str().unwrap_or("")));
+            }
+            "E" => {
+                let (_, body) = rest.split_once(' ').unwrap_or((rest, "null"));
+                let v: Value = serde_json::from_str(body).unwrap_or(Value::Null);
+                let (_, op) = current.take().unwrap_or((0, Value::Null));
+                res.executed += 1;
+                if v["nt"].as_bool() == Some(true) {
+                    res.nontrivial += 1;
+                }
+                if let Some(f) = op["f"].as_str() {
+                    let e = res.times.entry(f.to_string()).or_insert((0, 0));
+                    e.0 += 1;
+                    e.1 += v["ns"].as_u64().unwrap_or(0);
+                }
+                *res.outcomes.entry(v["class"].as_str().unwrap_or("?").to_string()).or_insert(0) += 1;
+                for x in v["viol"].as_array().cloned().unwrap_or_default() {
+                    res.violations.push((x[0].as_str().unwrap_or("").to_string(), x[1].as_str().unwrap_or("").to_string(), op.clone()));
+                }
+                if unit.verbose {
+                    res.log.push(format!("{} => {} ; model after: {}", op, v["class"].as_str().unwrap_or(""), v["key"].as_str().unwrap_or("")));
+                    for x in v["viol"].as_array().cloned().unwrap_or_default() {
+                        res.log.push(format!("   VIOLATES [{}]: {}", x[0].as_str().unwrap_or(""), x[1].as_str().unwrap_or("")));
+                    }
+                }
+                if unit.want_succ && v["overfull"].as_bool() != Some(true) {
+                    let key = v["key"].as_str().unwrap_or("").to_string();
+                    if !unit.dedup || seen_keys.insert(key.clone()) {
+                        res.succ.push((op, key));
+                    }
+                }
+            }
+            "C" => {
+                // the grandchild executing the current call died
+                let how = rest.split_once(' ').map(|x| x.1).unwrap_or(rest).to_string();
+                let (_, op) = current.take().unwrap_or((0, Value::Null));
+                res.executed += 1;
+                let o = Op::from_json(&op);
+                if o.as_ref().map(|o| o.args.iter().any(|a| matches!(a, A::Slot(_) | A::Freed))).unwrap_or(false) {
+                    res.nontrivial += 1;
+                }
+                let fname = o.as_ref().map(|o| o.f.name()).unwrap_or("?");
+                let argtxt = crash_desc.clone().unwrap_or_default();
+                *res.outcomes.entry(format!("{fname} [{argtxt}] -> CRASH {how}")).or_insert(0) += 1;
+                res.violations.push((
+                    format!("crash fn={fname} args=[{argtxt}] how={how}"),
+                    format!("the process died with {how} in {}{}", o.as_ref().map(|o| o.text()).unwrap_or_default(), lib_panic.as_ref().map(|p| format!(" — {p}")).unwrap_or_default()),
+                    op.clone(),
+                ));
+                if unit.verbose {
+                    res.log.push(format!("{op} => CRASH {how} {}", lib_panic.clone().unwrap_or_default()));
+                }
+            }
+            "D" => done = true,
+            _ => {}
+        }
+    }
+    let mut status = 0i32;
+    libc::waitpid(pid, &mut status, 0);
+    if !done {
+        if libc::WIFEXITED(status) && libc::WEXITSTATUS(status) == 101 {
+            kit::ev::machinery("C31: harness panic in child (exit 101)");
+        }
+        let how = sig_name(status);
+        if replaying || res.n_ops == 0 {
+            // the prefix was executed without a crash one level up; dying while replaying it is a violation of its own
+            let last = unit.prefix.last().map(|o| o.to_json()).unwrap_or(Value::Null);
+            res.executed += 1;
+            res.violations.push((
+                format!("crash phase=prefix-replay how={how} last={}", unit.prefix.last().map(|o| o.f.name()).unwrap_or("-")),
+                format!("the process died with {how} while replaying a prefix that had run before: {}{}", unit.prefix.iter().map(|o| o.text()).collect::<Vec<_>>().join(" ; "), lib_panic.as_ref().map(|p| format!(" — {p}")).unwrap_or_default()),
+                last,
+            ));
+        } else {
+            kit::ev::machinery(format!("C31: the child holding the prefix state died ({how}) outside any call, unit {}", unit.to_json()));
+        }
+    }
+    res
+}
+
+/// Entry of a worker subprocess: units come from the file named by VERIF_C31_WORKER, results go to stdout (one JSON line per unit).
+fn worker_main(spec_path: &str) -> ! {
+    let data = std::fs::read_to_string(spec_path).unwrap_or_else(|e| kit::ev::machinery(format!("C31 worker: cannot read {spec_path}: {e}")));
+    let env = Env::new();
+    let out = std::io::stdout();
+    for line in data.lines() {
+        if line.trim().is_empty() {
+            continue;
+        }
+        let v: Value = serde_json::from_str(line).unwrap_or_else(|e| kit::ev::machinery(format!("C31 worker: bad unit: {e}")));
+        let unit = Unit::from_json(&v["unit"]);
+        let r = unsafe { run_unit(&env, &unit) };
+        let j = json!({
+            "id": v["id"],
+            "n_ops": r.n_ops,
+            "executed": r.executed,
+            "nontrivial": r.nontrivial,
+            "times": r.times.iter().map(|(k, v)| (k.clone(), json!([v.0, v.1]))).collect::<serde_json::Map<String, Value>>(),
+            "outcomes": r.outcomes,
+            "violations": r.violations.iter().map(|(k, w, o)| json!([k, w, o])).collect::<Vec<_>>(),
+            "succ": r.succ.iter().map(|(o, k)| json!([o, k])).collect::<Vec<_>>(),
+            "log": r.log,
+        });
+        let mut g = out.lock();
+        let _ = writeln!(g, "{j}");
+        let _ = g.flush();
+    }
+    std::process::exit(0);
+}
+
+// ------------------------------------------------------------------------------------------------
+// parent side
+// ------------------------------------------------------------------------------------------------
+
+struct LevelResult {
+    times: BTreeMap<String, (u64, u64)>,
+    executed: u64,
+    nontrivial: u64,
+    /// per unit id: successors (op, key)
+    succ: BTreeMap<usize, Vec<(Op, String)>>,
+}
+
+/// Distribute units over worker subprocesses and collect the results.
+fn run_units(run: &Run, units: &[Unit], judge_into_run: bool) -> LevelResult {
+    // every sequence costs two process wake-ups and almost no CPU, so the work is latency-bound: oversubscribe the cores
+    let nworkers = (par::workers() * 4).min(units.len().max(1));
+    let dir = tempfile::Builder::new().prefix("verif-c31-").tempdir_in("/tmp").unwrap_or_else(|e| kit::ev::machinery(format!("tempdir: {e}")));
+    let exe = std::env::current_exe().unwrap_or_else(|e| kit::ev::machinery(format!("current_exe: {e}")));
+    let result = Mutex::new(LevelResult { times: BTreeMap::new(), executed: 0, nontrivial: 0, succ: BTreeMap::new() });
+    // round-robin, so that expensive neighbouring units are spread
+    let mut files = vec![];
+    for w in 0..nworkers {
+        let mut s = String::new();
+        for (id, u) in units.iter().enumerate() {
+            if id % nworkers == w {
+                s.push_str(&json!({"id": id, "unit": u.to_json()}).to_string());
+                s.push('\n');
+            }
+        }
+        let p = dir.path().join(format!("units-{w}.jsonl"));
+        std::fs::write(&p, s).unwrap_or_else(|e| kit::ev::machinery(format!("write units: {e}")));
+        files.push(p);
+    }
+    std::thread::scope(|sc| {
+        for (w, p) in files.iter().enumerate() {
+            let (exe, result) = (&exe, &result);
+            sc.spawn(move || {
+                let mut child = Command::new(exe)
+                    .arg("C31")
+                    .env("VERIF_C31_WORKER", p)
+                    .env("MALLOC_PERTURB_", "165")
+                    .stdin(Stdio::null())
+                    .stdout(Stdio::piped())
+                    .stderr(Stdio::null())
+                    .spawn()
+                    .unwrap_or_else(|e| kit::ev::machinery(format!("cannot spawn worker: {e}")));
+                let so = child.stdout.take().unwrap_or_else(|| kit::ev::machinery("worker stdout"));
+                let mut got = 0usize;
+                for line in BufReader::new(so).lines() {
+                    let Ok(line) = line else { break };
+                    let Ok(v) = serde_json::from_str::<Value>(&line) else { continue };
+                    got += 1;
+                    let id = v["id"].as_u64().unwrap_or(0) as usize;
+                    let unit = &units[id];
+                    let mut g = result.lock().unwrap();
+                    g.executed += v["executed"].as_u64().unwrap_or(0);
+                    g.nontrivial += v["nontrivial"].as_u64().unwrap_or(0);
+                    for (k, x) in v["times"].as_object().cloned().unwrap_or_default() {
+                        let e = g.times.entry(k).or_insert((0, 0));
+                        e.0 += x[0].as_u64().unwrap_or(0);
+                        e.1 += x[1].as_u64().unwrap_or(0);
+                    }
+                    if judge_into_run {
+                        for (k, n) in v["outcomes"].as_object().cloned().unwrap_or_default() {
+                            run.outcome_n(k, n.as_u64().unwrap_or(0));
+                        }
+                        for x in v["violations"].as_array().cloned().unwrap_or_default() {
+                            let mut h = unit.prefix.clone();
+                            if !x[0].as_str().unwrap_or("").contains("phase=prefix-replay") {
+                                if let Some(o) = Op::from_json(&x[2]) {
+                                    h.push(o);
+                                }
+                            }
+                            run.violation(x[0].as_str().unwrap_or(""), x[1].as_str().unwrap_or(""), json!({"history": hist_json(&h)}));
+                        }
+                    }
+                    for l in v["log"].as_array().cloned().unwrap_or_default() {
+                        println!("  {}", l.as_str().unwrap_or(""));
+                    }
+                    let s: Vec<(Op, String)> = v["succ"].as_array().cloned().unwrap_or_default().iter().filter_map(|x| Some((Op::from_json(&x[0])?, x[1].as_str()?.to_string()))).collect();
+                    g.succ.insert(id, s);
+                }
+                let st = child.wait();
+                let expected = (0..units.len()).filter(|id| id % nworkers == w).count();
+                if got != expected || !st.map(|s| s.success()).unwrap_or(false) {
+                    kit::ev::machinery(format!("C31: worker for {} returned {got}/{expected} unit results (a worker itself must never die)", p.display()));
+                }
+            });
+        }
+    });
+    result.into_inner().unwrap()
+}
+
+pub fn run(run: &Run, replay: Option<&Value>) {
+    if let Ok(spec) = std::env::var("VERIF_C31_WORKER") {
+        worker_main(&spec);
+    }
+    run.rule("call histories over 65 exported C functions; every pointer argument from {each live handle (right/wrong type), last freed address, NULL, foreign heap block}, stream arguments from {fresh stream, live non-stream handle, released stream, NULL, foreign}, one deviating argument per call, pool <= 3. \
+              (1) all sequences to depth D1 unreduced; (2) BFS to depth D2 with one representative history per abstract model state; every sequence closed by an epilogue freeing all model-live handles twice. \
+              non-trivial = executed sequences whose last call has at least one handle argument (valid or not) taken from a non-empty pool or the freed address, i.e. whose verdict depends on the history");
+    run.assume("c2pa_free(NULL) and the typed free functions with NULL are documented no-ops (return 0, no error); they are not counted as 'invalid argument'");
+    run.assume("typed free functions (c2pa_reader_free, ...) return void and are documented as equivalent to c2pa_free: given a live handle of another type they release it; for void functions the error indicator is the presence of a fresh c2pa_error()");
+    run.assume("when a call that consumes an argument on success fails, the status of that argument is unspecified (c2pa_context_builder_set_signer, c2pa_context_builder_set_http_resolver, c2pa_identity_signer_create); the next use decides. Functions documented to invalidate their first argument in every case (reader/builder with_*, context_builder_build) are modelled that way");
+    run.assume("function-pointer arguments are always valid functions; non-handle pointers (strings, out-pointers, byte buffers) are always valid; explored sequentially in one thread");
+    run.assume("library linked as rlib into the harness with debug assertions and overflow checks on (profile of the whole harness), glibc malloc with MALLOC_PERTURB_ so that use-after-free reads garbage");
+
+    if let Some(c) = replay {
+        let h = hist_from_json(&c["history"]);
+        if h.is_empty() {
+            kit::ev::machinery("C31 replay: empty history");
+        }
+        run.eval();
+        let unit = Unit { prefix: h[..h.len() - 1].to_vec(), only: Some(h[h.len() - 1].clone()), want_succ: false, dedup: false, verbose: true };
+        println!("history: {}", h.iter().map(|o| o.text()).collect::<Vec<_>>().join(" ; "));
+        run_units(run, &[unit], true);
+        run.states(1);
+        run.transitions(1);
+        return;
+    }
+
+    // ---- machinery baseline: a fully valid history must work, twice, identically ----
+    {
+        let s = |f: F, a: Vec<A>| Op { f, args: a };
+        let base = vec![s(F::BuilderFromJson, vec![]), s(F::SignerFromInfo, vec![])];
+        let probe = s(F::BuilderSign, vec![A::Slot(0), A::Amb, A::Amb, A::Slot(1)]);
+        let u = Unit { prefix: base, only: Some(probe), want_succ: true, dedup: false, verbose: false };
+        let collect = |u: &Unit| {
+            let r = run_units(run, &[u.clone()], false);
+            r.succ.get(&0).cloned().unwrap_or_default()
+        };
+        let a = collect(&u);
+        let b = collect(&u);
+        if a.len() != 1 || a != b {
+            kit::ev::machinery(format!("C31: baseline (builder_from_json; signer_from_info; builder_sign) not deterministic or crashed: {a:?} vs {b:?}"));
+        }
+        if !a[0].1.contains("bytes") {
+            kit::ev::machinery(format!("C31: baseline sign did not produce manifest bytes (state {})", a[0].1));
+        }
+    }
+
+    let d_full: usize = run.tier.pick(2, 3);
+    let d_bfs: usize = run.tier.pick(3, 6);
+    let mut total_states: BTreeSet<String> = BTreeSet::new();
+    total_states.insert(Model::default().key());
+    // distinct sequences: all of phase (1), and those of phase (2) that are longer than d_full (shorter ones repeat phase (1))
+    let mut distinct_sequences = 0u64;
+    let mut distinct_nontrivial = 0u64;
+    let mut times: BTreeMap<String, (u64, u64)> = BTreeMap::new();
+
+    // ---- (1) unreduced: every sequence to depth d_full ----
+    {
+        let mut frontier: Vec<Vec<Op>> = vec![vec![]];
+        let mut count = 0u64;
+        for depth in 1..=d_full {
+            let last = depth == d_full;
+            let units: Vec<Unit> = frontier.iter().map(|h| Unit { prefix: h.clone(), only: None, want_succ: !last, dedup: false, verbose: false }).collect();
+            let r = run_units(run, &units, true);
+            for (k, v) in &r.times {
+                let e = times.entry(k.clone()).or_insert((0, 0));
+                e.0 += v.0;
+                e.1 += v.1;
+            }
+            count += r.executed;
+            distinct_sequences += r.executed;
+            distinct_nontrivial += r.nontrivial;
+            run.evals(r.executed);
+            let mut next = vec![];
+            for (id, succ) in &r.succ {
+                for (op, key) in succ {
+                    total_states.insert(key.clone());
+                    let mut h = units[*id].prefix.clone();
+                    h.push(op.clone());
+                    next.push(h);
+                }
+            }
+            println!("C31 unreduced depth {depth}: {} prefixes expanded, {} sequences executed", units.len(), r.executed);
+            frontier = next;
+        }
+        run.space(&format!("every call sequence up to depth {d_full} (no reduction)"), count, true);
+    }
+
+    // ---- (2) BFS over abstract states to depth d_bfs ----
+    {
+        let mut seen: BTreeMap<String, Vec<Op>> = BTreeMap::new();
+        seen.insert(Model::default().key(), vec![]);
+        let mut frontier: Vec<Vec<Op>> = vec![vec![]];
+        let mut count = 0u64;
+        for depth in 1..=d_bfs {
+            if frontier.is_empty() {
+                break;
+            }
+            let last = depth == d_bfs;
+            let units: Vec<Unit> = frontier.iter().map(|h| Unit { prefix: h.clone(), only: None, want_succ: !last, dedup: true, verbose: false }).collect();
+            // sequences of length <= d_full were already judged (and their outcomes counted) in phase (1)
+            let r = run_units(run, &units, depth > d_full);
+            for (k, v) in &r.times {
+                let e = times.entry(k.clone()).or_insert((0, 0));
+                e.0 += v.0;
+                e.1 += v.1;
+            }
+            count += r.executed;
+            run.evals(r.executed);
+            if depth > d_full {
+                distinct_sequences += r.executed;
+                distinct_nontrivial += r.nontrivial;
+            }
+            let mut next = vec![];
+            for (id, succ) in &r.succ {
+                for (op, key) in succ {
+                    if !seen.contains_key(key) {
+                        let mut h = units[*id].prefix.clone();
+                        h.push(op.clone());
+                        seen.insert(key.clone(), h.clone());
+                        if depth <= 2 && next.len() < 3 {
+                            run.sample(json!({"representative_history": h.iter().map(|o| o.text()).collect::<Vec<_>>(), "abstract_state": key}));
+                        }
+                        next.push(h);
+                    }
+                }
+            }
+            println!("C31 bfs depth {depth}: {} representative states expanded, {} sequences executed, {} new abstract states", units.len(), r.executed, next.len());
+            frontier = next;
+        }
+        for k in seen.keys() {
+            total_states.insert(k.clone());
+        }
+        run.space(&format!("BFS to depth {d_bfs}: every enabled call in every abstract model state reached (one representative history per state)"), count, true);
+        run.extra("abstract_states_bfs", json!(seen.len()));
+        run.extra(
+            "deepest_representatives",
+            json!(seen.values().filter(|h| h.len() + 1 >= d_bfs).take(5).map(|h| h.iter().map(|o| o.text()).collect::<Vec<_>>()).collect::<Vec<_>>()),
+        );
+    }
+    {
+        let mut t: Vec<(&String, &(u64, u64))> = times.iter().collect();
+        t.sort_by_key(|x| std::cmp::Reverse(x.1 .1));
+        run.extra(
+            "library_time_by_function_top",
+            json!(t.iter().take(12).map(|(k, v)| json!({"fn": k, "calls": v.0, "total_ms": v.1 / 1_000_000, "mean_us": v.1 / 1000 / v.0.max(1)})).collect::<Vec<_>>()),
+        );
+    }
+    run.states(total_states.len() as u64);
+    run.transitions(distinct_sequences);
+    run.traces(distinct_sequences);
+    run.nontrivial_n(distinct_nontrivial);
 }
